@@ -9,6 +9,7 @@ import (
 	"encoding/binary"
 	"encoding/hex"
 	"fmt"
+	"math/big"
 	"sort"
 	"strings"
 	"time"
@@ -173,17 +174,40 @@ func (v *chainView) coinsOf(addr sdk.Address) sdk.Int {
 	return v.Accounts[hex.EncodeToString(addr)].AmountOf(sdk.DefaultStakeDenom)
 }
 
+// sumAccounts adds all balances per denomination with math/big (not with Coins.Add, which C18 judges) and
+// returns the sums as sorted coins without zero amounts.
 func (v *chainView) sumAccounts() sdk.Coins {
-	var total sdk.Coins
-	var ks []string
-	for k := range v.Accounts {
-		ks = append(ks, k)
+	sums := map[string]*big.Int{}
+	for _, cs := range v.Accounts {
+		for _, c := range cs {
+			if sums[c.Denom] == nil {
+				sums[c.Denom] = new(big.Int)
+			}
+			sums[c.Denom].Add(sums[c.Denom], c.Amount.BigInt())
+		}
 	}
-	sort.Strings(ks)
-	for _, k := range ks {
-		total = total.Add(v.Accounts[k])
+	var ds []string
+	for d, x := range sums {
+		if x.Sign() != 0 {
+			ds = append(ds, d)
+		}
+	}
+	sort.Strings(ds)
+	var total sdk.Coins
+	for _, d := range ds {
+		total = append(total, sdk.Coin{Denom: d, Amount: sdk.NewIntFromBigInt(sums[d])})
 	}
 	return total
+}
+
+// anyNegative: a balance below zero in any denomination (own loop)
+func anyNegative(cs sdk.Coins) bool {
+	for _, c := range cs {
+		if c.Amount.BigInt().Sign() < 0 {
+			return true
+		}
+	}
+	return false
 }
 
 func (v *chainView) supplyOf() sdk.Int { return v.Supply.AmountOf(sdk.DefaultStakeDenom) }
